@@ -167,7 +167,7 @@ def make_program(idx, kind, ca, structure, feats, flags, validators=True):
         inner_name = f"Inner{idx}"
         ifields = [mk_field(ft, rq, next(fid), metas[(idx + i + 1) % 2] if ikind == "dataclass" else "annotated") for i, (ft, rq) in enumerate(zip(ifeats, iflags))]
         classes.append({"name": inner_name, "kind": ikind, "total": itotal, "class_aliaser": ica, "fields": ifields, "depreq": {}, "methods": [],
-                        "validators": validators and ikind == "dataclass"})
+                        "validators": validators and ikind == "dataclass", "split_base": ikind == "dataclass" and idx % 4 == 2})
         if structure == "nested":
             holder = HOLDER[idx % len(HOLDER)]
             fields.append(mk_field(holder, total if kind == "typeddict" else True, next(fid), "field" if kind == "dataclass" else "annotated", role="nested", inner=inner_name))
@@ -201,7 +201,7 @@ def make_program(idx, kind, ca, structure, feats, flags, validators=True):
     # required fields first (dataclass / NamedTuple syntax)
     fields.sort(key=lambda f: not f["required"])
     classes.append({"name": f"Outer{idx}", "kind": kind, "total": total, "class_aliaser": ca, "fields": fields, "depreq": depreq, "methods": methods,
-                    "validators": validators and kind in ("dataclass", "namedtuple")})
+                    "validators": validators and kind in ("dataclass", "namedtuple"), "split_base": kind == "dataclass" and idx % 4 == 1})
     args = [ARGS[(idx + k) % len(ARGS)] for k in range(2)]
     op = {"func": f"get_outer_{idx}", "alias": ["opAlias", None, "op_alias_snake"][idx % 3]}
     return {"classes": classes, "top": f"Outer{idx}", "args": [{"name": a, "alias": b} for a, b in args], "op": op,
@@ -288,10 +288,12 @@ def default_of(f):
 def emit_class(cls, by_name):
     lines = []
     k = cls["kind"]
-    if cls["class_aliaser"]:
+    split = bool(cls.get("split_base")) and k == "dataclass"
+    # split: everything is declared in an undecorated base dataclass, the class aliaser only decorates the (empty) subclass
+    if cls["class_aliaser"] and not split:
         lines.append(f"@alias(CLASS_AL[{cls['class_aliaser']!r}])")
     if k == "dataclass":
-        lines += ["@dataclass", f"class {cls['name']}:"]
+        lines += ["@dataclass", f"class {cls['name']}{'_B' if split else ''}:"]
     elif k == "namedtuple":
         lines.append(f"class {cls['name']}(NamedTuple):")
     else:
@@ -335,6 +337,8 @@ def emit_class(cls, by_name):
         sig = "self" + (f", {m['arg']['name']}: int = 0" if m["arg"] else "")
         body += [f"    def {m['func']}({sig}) -> int:", f"        return {9000 + m['id']}"]
     lines += body
+    if split:
+        lines += [""] + ([f"@alias(CLASS_AL[{cls['class_aliaser']!r}])"] if cls["class_aliaser"] else []) + ["@dataclass", f"class {cls['name']}({cls['name']}_B):", "    pass"]
     if cls["depreq"]:
         lines.append(f"dependent_required({cls['depreq']!r}, owner={cls['name']})")
     if cls["validators"] and k == "namedtuple":
